@@ -8,7 +8,7 @@ RUNS = {
     "c13": (4000, 200000),
     "c14": (2000, 100000),
     "c17": (6000, 400000),
-    "c18": (1600, 60000),
+    "c18": (3000, 90000),
 }
 # wall-clock safety net for dispatch (seconds); when hit, fewer runs are made and reported honestly
 BUDGET_S = {"quick": 240, "thorough": 3300}
